@@ -13,12 +13,39 @@ class Ctx(object):
         self.__dict__.update(kw)
 
 
-def in_array(st, name, n, mode, fin=None):
-    """input array `name` of length n (int in B mode, z3 Int in P mode); not local => frame-protected"""
+def in_array(st, name, n, mode, values=None):
+    """input array `name` of length n (int in B mode, z3 Int in P mode); not local => frame-protected.
+    values: concrete replay input {name: [numbers]} -> exact Fractions instead of symbols"""
+    if values is not None and name in values:
+        data = [exact(v) for v in values[name]]
+        return st.alloc(data, len(data), name, local=False)
     if mode == 'B':
         data = [z3.Real("%s_%d" % (name, k)) for k in range(n)]
         return st.alloc(data, n, name, local=False)
     return st.alloc(z3.Const(name, ARR), n, name, local=False)
+
+
+def exact(v):
+    """float -> the exact rational it denotes"""
+    from fractions import Fraction
+    if isinstance(v, bool):
+        return v
+    f = Fraction(v)
+    return int(f) if f.denominator == 1 else f
+
+
+def in_real(name, values=None):
+    if values is not None and name in values:
+        return exact(values[name])
+    return z3.Real(name)
+
+
+def in_int(name, mode, size_value, values=None):
+    if values is not None and name in values:
+        return int(values[name])
+    if mode == 'B':
+        return size_value
+    return z3.Int(name)
 
 
 class Contract(object):
@@ -47,12 +74,20 @@ class Contract(object):
         return source.module(self.rel).func(self.func, self.cls)
 
 
-def function_obligations(contract, mode, size, label=None, extra_posts=None):
+def function_obligations(contract, mode, size, label=None, extra_posts=None, values=None, want_paths=False):
     """-> (list of Obl, stats dict). Raises Unsupported / Unbound (=> undecided)."""
     reset_fresh()
     mod = source.module(contract.rel)
     fdef = mod.func(contract.func, contract.cls)
-    st, pre, ctx = contract.setup(mode, size)
+    if values is not None:
+        st, pre, ctx = contract.setup(mode, size, values=values)
+    else:
+        st, pre, ctx = contract.setup(mode, size)
+    for kf in getattr(contract, 'known', ()):       # known-finding carve-outs: excluded input classes
+        pre = list(pre) + [bnot(kf(ctx))]
+    pre = [p for p in pre if p is not True]
+    if any(p is False for p in pre):
+        return [], dict(paths=0, vacuous=True)
     eng = Engine(mod.funcs, mode,
                  loop_specs={(contract.func, k): v for k, v in contract.loops.items()} if mode == 'P' else {},
                  call_models=contract.call_models(mode), ctx=ctx, fname=contract.func,
@@ -87,6 +122,9 @@ def function_obligations(contract, mode, size, label=None, extra_posts=None):
             for nm, f in extra_posts(st2, out[1], ctx):
                 obls.append(Obl("post.%s" % nm, pc2.hyp(), toB(f) if not is_z3(f) else f, 'post', meta=dict(path=nret)))
     stats = dict(paths=len(paths), returning=nret, forks=eng.nforks, pruned=eng.npruned, loops=sorted(eng.loop_cover))
+    if want_paths:
+        stats['_paths'] = paths
+        stats['_ctx'] = ctx
     return obls, stats
 
 
